@@ -28,6 +28,8 @@ import Mathlib.Logic.Function.Basic
 import Mathlib.Algebra.Order.Field.Rat
 import OQuPyVerif.Generated.TebdLayers
 import OQuPyVerif.Generated.ControlCompose
+import OQuPyVerif.Generated.ChainLindblad
+import Mathlib.Algebra.Star.Basic
 
 namespace OQuPyVerif.Tebd
 open OQuPyVerif.Generated
@@ -328,5 +330,45 @@ def Chain.stateAt (order : ℤ) (dt : ℚ) (k0 : ℕ) (ψ0 : Config → K) : ℕ
   | m + 1 => runOps (ch.stepOps order dt (k0 + m)) (Chain.stateAt order dt k0 ψ0 m)
 
 end Dense
+
+/-! ### 4. the generated Liouvillian contributions as tables
+
+`Generated/ChainLindblad.lean` lists every contribution of `add_site_hamiltonian`,
+`add_site_dissipation`, `add_nn_hamiltonian`, `add_nn_dissipation` as terms
+`coef · np.kron(left, right.T)` (two sites: `coef · np.kron(np.kron(l1, r1.T), np.kron(l2, r2.T))`).
+Here they are evaluated on concrete operator tables (row-major pair index `p = i·d + j`). -/
+
+section LindbladTables
+open ChainLindblad
+variable {K : Type} [CommRing K] [StarRing K]
+
+/-- an operator expression as a `d × d` table (`env k` = k-th operator argument) -/
+def opTab (d : ℕ) (env : ℕ → ℕ → ℕ → K) : OpE → ℕ → ℕ → K
+  | .one => fun i j => if i = j then 1 else 0
+  | .var k => env k
+  | .dag e => fun i j => star (opTab d env e j i)
+  | .mul a b => fun i j => ∑ k ∈ range d, opTab d env a i k * opTab d env b k j
+
+/-- `(re + i·im) · gamma^g` -/
+def coefTab (cast : ℚ → K) (imag γ : K) (c : Coef) : K :=
+  (cast c.re + cast c.im * imag) * (if c.gamma then γ else 1)
+
+/-- `Σ coef · np.kron(left, right.T)`: entry `[(i,j),(k,l)] = left[i,k] · right[l,j]` -/
+def super1Tab (cast : ℚ → K) (imag γ : K) (d : ℕ) (env : ℕ → ℕ → ℕ → K) (terms : List Term1) :
+    ℕ → ℕ → K :=
+  fun p q => (terms.map (fun t => coefTab cast imag γ t.coef *
+    (opTab d env t.left (p / d) (q / d) * opTab d env t.right (q % d) (p % d)))).sum
+
+/-- `Σ coef · np.kron(np.kron(l1, r1.T), np.kron(l2, r2.T))` for site dimensions `d1`, `d2` -/
+def super2Tab (cast : ℚ → K) (imag γ : K) (d1 d2 : ℕ) (e1 e2 : ℕ → ℕ → ℕ → K)
+    (terms : List Term2) : ℕ → ℕ → K :=
+  fun p q =>
+    let p1 := p / (d2 * d2); let p2 := p % (d2 * d2)
+    let q1 := q / (d2 * d2); let q2 := q % (d2 * d2)
+    (terms.map (fun t => coefTab cast imag γ t.coef *
+      (opTab d1 e1 t.l1 (p1 / d1) (q1 / d1) * opTab d1 e1 t.r1 (q1 % d1) (p1 % d1)
+        * (opTab d2 e2 t.l2 (p2 / d2) (q2 / d2) * opTab d2 e2 t.r2 (q2 % d2) (p2 % d2))))).sum
+
+end LindbladTables
 
 end OQuPyVerif.Tebd
